@@ -112,12 +112,54 @@ pub fn str_strip_suffix_char<'a>(s: &'a str, c: char) -> (r: Option<&'a str>)
 pub fn str_strip_prefix_char<'a>(s: &'a str, c: char) -> (r: Option<&'a str>)
     ensures r is Some <==> (s@.len() > 0 && s@[0] == c), r is Some ==> r->0@ == s@.skip(1)
 { unimplemented!() }
-// trim family: the result is a sub-slice (which characters are trimmed is not needed by any property here)
+// trim family (exact): trim_*_matches(c) strip every leading / trailing c; trim() strips Unicode White_Space (is_uws, not
+// spelled out: only "this character is not white space" facts are ever needed)
+pub open spec fn trim_end_of(s: Seq<char>, c: char) -> Seq<char>
+    decreases s.len()
+{ if s.len() > 0 && s.last() == c { trim_end_of(s.drop_last(), c) } else { s } }
+pub open spec fn trim_start_of(s: Seq<char>, c: char) -> Seq<char>
+    decreases s.len()
+{ if s.len() > 0 && s[0] == c { trim_start_of(s.skip(1), c) } else { s } }
+pub uninterp spec fn is_uws(c: char) -> bool;
+pub open spec fn trim_end_ws(s: Seq<char>) -> Seq<char>
+    decreases s.len()
+{ if s.len() > 0 && is_uws(s.last()) { trim_end_ws(s.drop_last()) } else { s } }
+pub open spec fn trim_start_ws(s: Seq<char>) -> Seq<char>
+    decreases s.len()
+{ if s.len() > 0 && is_uws(s[0]) { trim_start_ws(s.skip(1)) } else { s } }
+proof fn lemma_trim_end_take(s: Seq<char>, c: char)
+    ensures exists|n: int| 0 <= n <= s.len() && trim_end_of(s, c) == #[trigger] s.take(n)
+    decreases s.len()
+{
+    if s.len() > 0 && s.last() == c {
+        lemma_trim_end_take(s.drop_last(), c);
+        let n = choose|n: int| 0 <= n <= s.drop_last().len() && trim_end_of(s.drop_last(), c) == #[trigger] s.drop_last().take(n);
+        assert(s.drop_last().take(n) =~= s.take(n));
+    } else { assert(s.take(s.len() as int) =~= s); }
+}
+proof fn lemma_trim_start_skip(s: Seq<char>, c: char)
+    ensures exists|n: int| 0 <= n <= s.len() && trim_start_of(s, c) == #[trigger] s.skip(n)
+    decreases s.len()
+{
+    if s.len() > 0 && s[0] == c {
+        lemma_trim_start_skip(s.skip(1), c);
+        let n = choose|n: int| 0 <= n <= s.skip(1).len() && trim_start_of(s.skip(1), c) == #[trigger] s.skip(1).skip(n);
+        assert(s.skip(1).skip(n) =~= s.skip(n + 1));
+    } else { assert(s.skip(0) =~= s); }
+}
 #[verifier::external_body]
-pub fn str_trim_end_matches<'a>(s: &'a str, c: char) -> (r: &'a str) ensures exists|n: int| 0 <= n <= s@.len() && r@ == s@.take(n) { unimplemented!() }
+pub fn str_trim_end_matches<'a>(s: &'a str, c: char) -> (r: &'a str)
+    ensures r@ == trim_end_of(s@, c), exists|n: int| 0 <= n <= s@.len() && r@ == s@.take(n)
+{ unimplemented!() }
 #[verifier::external_body]
-pub fn str_trim_start_matches<'a>(s: &'a str, c: char) -> (r: &'a str) ensures exists|n: int| 0 <= n <= s@.len() && r@ == s@.skip(n) { unimplemented!() }
+pub fn str_trim_start_matches<'a>(s: &'a str, c: char) -> (r: &'a str)
+    ensures r@ == trim_start_of(s@, c), exists|n: int| 0 <= n <= s@.len() && r@ == s@.skip(n)
+{ unimplemented!() }
 #[verifier::external_body]
-pub fn str_trim_matches<'a>(s: &'a str, c: char) -> (r: &'a str) ensures exists|a: int, b: int| 0 <= a <= b <= s@.len() && r@ == s@.subrange(a, b) { unimplemented!() }
+pub fn str_trim_matches<'a>(s: &'a str, c: char) -> (r: &'a str)
+    ensures r@ == trim_start_of(trim_end_of(s@, c), c), exists|a: int, b: int| 0 <= a <= b <= s@.len() && r@ == s@.subrange(a, b)
+{ unimplemented!() }
 #[verifier::external_body]
-pub fn str_trim<'a>(s: &'a str) -> (r: &'a str) ensures exists|a: int, b: int| 0 <= a <= b <= s@.len() && r@ == s@.subrange(a, b) { unimplemented!() }
+pub fn str_trim<'a>(s: &'a str) -> (r: &'a str)
+    ensures r@ == trim_start_ws(trim_end_ws(s@)), exists|a: int, b: int| 0 <= a <= b <= s@.len() && r@ == s@.subrange(a, b)
+{ unimplemented!() }
